@@ -11,6 +11,7 @@ import (
 	"sync/atomic"
 	"time"
 
+	"github.com/nextdns/nextdns/proxy"
 	"github.com/nextdns/nextdns/resolver"
 	"github.com/nextdns/nextdns/resolver/endpoint"
 	"github.com/nextdns/nextdns/resolver/query"
@@ -309,6 +310,63 @@ func runCap(addr string, g *gateUpstream, k int, events []string) string {
 	return fmt.Sprintf("max=%d replied=%d/%d probe=%s mix=%s mixreplied=%d/%d", max, replied, n, probe, mix, replied2, n)
 }
 
+
+// capudp <K> <n>: the real serveUDP on a socket the harness owns, K capacity units. After a few ordinary queries the
+// listener's PENDING READ is made to fail n times with a transient error (an expired read deadline, cleared again at once -
+// what a socket under memory pressure or with a deadline does); then K slow queries must run concurrently and be answered,
+// and the listener must still return when its socket is closed.   -> max=<m> replied=<r>/<K> returned=<0|1>
+func runCapUDP(k, nerr int) string {
+	pc, err := net.ListenPacket("udp", "127.0.0.1:0")
+	if err != nil {
+		return "ERR " + err.Error()
+	}
+	g := &gateUpstream{gate: make(chan struct{})}
+	p := proxy.Proxy{Upstream: g, Timeout: 3 * time.Second}
+	done := make(chan error, 1)
+	go func() { done <- p.VerifServeUDP(pc, make(chan struct{}, k)) }()
+	addr := pc.LocalAddr().String()
+	for i := 0; i < 3; i++ {
+		_, _ = udpExchange(addr, kindQuery(10+i, "ok"), 500*time.Millisecond)
+	}
+	uc := pc.(*net.UDPConn)
+	for i := 0; i < nerr; i++ {
+		_ = uc.SetReadDeadline(time.Now().Add(-time.Second))
+		time.Sleep(15 * time.Millisecond)
+		_ = uc.SetReadDeadline(time.Time{})
+		time.Sleep(5 * time.Millisecond)
+	}
+	atomic.StoreInt32(&g.maxActive, 0)
+	var wg sync.WaitGroup
+	var replied int32
+	for j := 0; j < k; j++ {
+		wg.Add(1)
+		go func(j int) {
+			defer wg.Done()
+			if r, err := udpExchange(addr, kindQuery(1000+j, "slow"), 4*time.Second); err == nil && len(r) >= 12 {
+				atomic.AddInt32(&replied, 1)
+			}
+		}(j)
+		time.Sleep(5 * time.Millisecond)
+	}
+	dl := time.Now().Add(1500 * time.Millisecond)
+	for time.Now().Before(dl) && int(atomic.LoadInt32(&g.active)) < k {
+		time.Sleep(10 * time.Millisecond)
+	}
+	max := atomic.LoadInt32(&g.maxActive)
+	g.mu.Lock()
+	close(g.gate)
+	g.mu.Unlock()
+	wg.Wait()
+	pc.Close()
+	returned := 0
+	select {
+	case <-done:
+		returned = 1
+	case <-time.After(2 * time.Second):
+	}
+	return fmt.Sprintf("max=%d replied=%d/%d returned=%d", max, replied, k, returned)
+}
+
 func init() {
 	areas["cap"] = func(c *Ctx) error {
 		r := NewRng(c.seed)
@@ -345,6 +403,12 @@ func init() {
 		if ls := replayLines(); ls != nil {
 			for _, l := range ls {
 				f := strings.Fields(l)
+				if len(f) == 3 && f[0] == "capudp" {
+					k, _ := strconv.Atoi(f[1])
+					n, _ := strconv.Atoi(f[2])
+					c.Emit(l, runCapUDP(k, n))
+					continue
+				}
 				if len(f) == 3 && f[0] == "cap" {
 					k, _ := strconv.Atoi(f[1])
 					if err := one(k, strings.Split(f[2], ",")); err != nil {
@@ -355,6 +419,11 @@ func init() {
 			return nil
 		}
 		for i := 0; i < c.n; i++ {
+			if i%3 == 2 {
+				k, n := 2+r.Intn(3), 1+r.Intn(8)
+				c.Stat("op:capudp")
+				c.Emit(fmt.Sprintf("capudp %d %d", k, n), runCapUDP(k, n))
+			}
 			k := 2 + r.Intn(3)
 			ne := 6 + r.Intn(14)
 			evs := make([]string, ne)
